@@ -75,7 +75,7 @@ SOURCES = {
     "C12": FF,
     "C13": FF + CORE,
     "C14": FF,
-    "C15": WIRE,
+    "C15": WIRE + ["src/common/median.go:*", HG + "GetFrame"],
     "C16": STORE,
     "C17": RPC + ["src/node/node.go:Node.checkSuspend", "src/node/node.go:Node.Suspend"],
     "C18": [HG + "GetFrame", "src/common/median.go:*", "src/hashgraph/block.go:NewBlockFromFrame"],
